@@ -195,14 +195,8 @@ impl Host {
                         } else {
                             out.panic = Some("shell event was not applied first".into());
                         }
-                        if *legacy {
-                            // the legacy reading of a trigger is `StartLegacy`; the reference says `Start`
-                            for e in out.events.iter_mut() {
-                                if let Event::StartLegacy(q) = e {
-                                    *e = Event::Start(q.clone());
-                                }
-                            }
-                        }
+                        let _ = legacy;
+                        normalise_triggers(&mut out.events);
                         let s = core.verif_stats();
                         out.queues = Some((s.1, s.2, s.3, s.4));
                     }
@@ -220,6 +214,7 @@ impl Host {
                         decode_bincode(&bytes, ids, &mut out);
                         let view: Vec<Event> = bincode_opts().deserialize(&bridge.view().unwrap()).unwrap();
                         out.events = view[*log_len..].to_vec();
+                        normalise_triggers(&mut out.events);
                         *log_len = view.len();
                         if out.events.first() == Some(&sent) {
                             out.events.remove(0);
@@ -252,6 +247,7 @@ impl Host {
                         bridge.view(&mut serde_json::Serializer::new(&mut vbuf)).unwrap();
                         let view: Vec<Event> = serde_json::from_slice(&vbuf).unwrap();
                         out.events = view[*log_len..].to_vec();
+                        normalise_triggers(&mut out.events);
                         *log_len = view.len();
                         if out.events.first() == Some(&sent) {
                             out.events.remove(0);
@@ -310,6 +306,7 @@ impl Host {
                         let log = core.view();
                         out.events = log[*log_len..].to_vec();
                         *log_len = log.len();
+                        normalise_triggers(&mut out.events);
                         let s = core.verif_stats();
                         out.queues = Some((s.1, s.2, s.3, s.4));
                         (Some(Res::Ok), Some(out))
@@ -334,6 +331,7 @@ impl Host {
                         decode_bincode(&bytes, ids, &mut out);
                         let view: Vec<Event> = bincode_opts().deserialize(&bridge.view().unwrap()).unwrap();
                         out.events = view[*log_len..].to_vec();
+                        normalise_triggers(&mut out.events);
                         *log_len = view.len();
                         let s = bridge.verif_core().verif_stats();
                         out.queues = Some((s.1, s.2, s.3, s.4));
@@ -373,6 +371,7 @@ impl Host {
                         bridge.view(&mut serde_json::Serializer::new(&mut vbuf)).unwrap();
                         let view: Vec<Event> = serde_json::from_slice(&vbuf).unwrap();
                         out.events = view[*log_len..].to_vec();
+                        normalise_triggers(&mut out.events);
                         *log_len = view.len();
                         let s = bridge.verif_core().verif_stats();
                         out.queues = Some((s.1, s.2, s.3, s.4));
@@ -539,6 +538,15 @@ impl Host {
             Inner::Bincode { bridge, .. } => Some(bridge.verif_registry_kinds()),
             Inner::Json { bridge, .. } => Some(bridge.verif_registry_kinds()),
             _ => None,
+        }
+    }
+}
+
+/// the legacy reading of a trigger is `StartLegacy`; the reference says `Start`
+fn normalise_triggers(events: &mut [Event]) {
+    for e in events.iter_mut() {
+        if let Event::StartLegacy(q) = e {
+            *e = Event::Start(q.clone());
         }
     }
 }
